@@ -575,3 +575,159 @@ func init() {
 		r.build(top.ID, "dry", nil, "", "nothing changed")
 	})
 }
+
+func init() {
+	// sessions over a generated file that is a declared source (no explicit dependency on the generator): the link from
+	// the file to its generator must survive a Reload (watch mode), and a session that starts from an interrupted state
+	engScenarios = append(engScenarios, func(r *engRun) {
+		s := r.mkSource("")
+		gen := r.mkTarget("", nil, []int{s}, 1, false, 0)
+		gs := 1000 + len(r.p.Sources)
+		r.p.Sources[gs] = &engSource{ID: gs, Path: gen.Gens[0]}
+		use := r.mkTarget("", nil, []int{gs}, 1, false, 4)
+		top := r.mkTarget("", []int{use.ID}, nil, 1, false, 0)
+		r.emitProj("scenario: sessions with a generated source; a session after an interrupted build")
+		r.build(top.ID, "build", nil, "", "scenario")
+		lo := map[string]int{r.p.label(gen.ID): gen.ID, r.p.label(use.ID): use.ID, r.p.label(top.ID): top.ID}
+		ps := r.p.Paths[r.p.Sources[s].Path]
+		lg, lu, lt := r.p.label(gen.ID), r.p.label(use.ID), r.p.label(top.ID)
+		run := func(l, mode string, fail ...string) sessStep { return sessStep{Op: "run", Label: l, Mode: mode, Fail: fail} }
+		edit := func() sessStep { return sessStep{Op: "write", Path: ps, Content: r.sessLit(r.p.Sources[s].Path)} }
+		r.session("generated source, reload", []sessStep{edit(), {Op: "reload"}, run(lt, "build"), edit(), {Op: "reload"}, run(lu, "build"), run(lt, "build")}, lo)
+		r.session("generated source, no reload", []sessStep{edit(), run(lu, "build"), {Op: "remove", Path: r.p.Paths[gen.Gens[0]]}, run(lt, "build")}, lo)
+		r.session("generated source, reload after a failure", []sessStep{edit(), run(lt, "build", lg), {Op: "reload"}, run(lt, "build", lu), run(lt, "build")}, lo)
+	})
+	engScenarios = append(engScenarios, func(r *engRun) {
+		s := r.mkSource("")
+		lib := r.mkTarget("", nil, []int{s}, 1, false, 0)
+		app := r.mkTarget("", []int{lib.ID}, nil, 1, false, 4)
+		r.emitProj("scenario: a session that starts from the state an interrupted build left")
+		r.build(app.ID, "build", nil, "", "scenario")
+		// killed in the middle of the body of a forced re-run: the record is valid and marked, the outputs are half-written
+		r.build(app.ID, "always", nil, "partial|"+r.p.label(lib.ID), "always-run killed inside the body of the dependency")
+		lo := map[string]int{r.p.label(lib.ID): lib.ID, r.p.label(app.ID): app.ID}
+		ll, la := r.p.label(lib.ID), r.p.label(app.ID)
+		run := func(l, mode string, fail ...string) sessStep { return sessStep{Op: "run", Label: l, Mode: mode, Fail: fail} }
+		r.session("after a kill inside a body: the retry fails, then succeeds", []sessStep{run(la, "build", ll), run(la, "build"), run(la, "build")}, lo)
+	})
+	// a dependency declared twice next to one that goes away
+	engScenarios = append(engScenarios, func(r *engRun) {
+		s := r.mkSource("")
+		s2 := r.mkSource("")
+		a := r.mkTarget("", nil, []int{s}, 1, false, 0)
+		b := r.mkTarget("", nil, []int{s2}, 1, false, 0)
+		t := r.mkTarget("", []int{a.ID, b.ID, a.ID}, []int{s, s2, s}, 1, false, 4)
+		top := r.mkTarget("", []int{t.ID}, nil, 1, false, 0)
+		r.emitProj("scenario: a dependency declared twice next to one that is removed")
+		r.build(top.ID, "build", nil, "", "scenario")
+		t.Srcs = []int{s, s}
+		r.emitProj("the source between the duplicates is no longer declared")
+		o := r.build(top.ID, "build", nil, "", "scenario")
+		if o.Kind == "build" && o.OK {
+			r.checkClean(top.ID)
+		}
+		t.Deps = []int{a.ID, a.ID}
+		r.emitProj("the dependency between the duplicates is no longer declared")
+		o = r.build(top.ID, "build", nil, "", "scenario")
+		if o.Kind == "build" && o.OK {
+			r.checkClean(top.ID)
+		}
+		r.build(top.ID, "build", nil, "", "nothing changed")
+	})
+	// a load that FAILS (a half-edited build file, as watch mode sees on every save) must leave the index alone: a
+	// collection through the index afterwards keeps the records of the labels the failing load never reached
+	engScenarios = append(engScenarios, func(r *engRun) {
+		hasSub := false
+		for _, pk := range r.p.Pkgs {
+			hasSub = hasSub || pk == "sub"
+		}
+		if !hasSub {
+			r.p.Pkgs = append(r.p.Pkgs, "sub")
+			r.p.Pad["sub"] = 0
+		}
+		s := r.mkSource("sub")
+		a := r.mkTarget("sub", nil, []int{s}, 1, false, 0)
+		b := r.mkTarget("", []int{a.ID}, nil, 1, false, 4)
+		top := r.mkTarget("", []int{b.ID}, nil, 1, false, 0)
+		r.emitProj("scenario: a failing load, then a collection through the index")
+		r.build(top.ID, "build", nil, "", "scenario")
+		for _, broken := range []string{"sub/BUILD.dawn", "BUILD.dawn"} {
+			full := filepath.Join(r.root, broken)
+			orig, err := os.ReadFile(full)
+			if err != nil {
+				return
+			}
+			os.WriteFile(full, append(append([]byte{}, orig...), []byte("\ntarget(name=\n")...), 0644)
+			for _, mode := range []string{"load", "build"} {
+				rep, _, hung := r.child(mode, r.p.label(top.ID), nil, "")
+				if hung || rep == nil {
+					r.oracle("C14 load of a tree with a half-edited %s: no report (hung=%v)", broken, hung)
+					return
+				}
+				if rep.LoadErr == "" {
+					r.oracle("harness: the half-edited %s loaded", broken)
+					return
+				}
+			}
+			r.gc(true)
+			os.WriteFile(full, orig, 0644)
+			o := r.build(top.ID, "build", nil, "", "the build file is what it was")
+			if o.Kind == "build" && o.OK && len(o.Ran) != 0 {
+				r.oracle("C14 a collection changed what the next build executes: %v ran although the tree is what was built (after a failing load of %s)", o.Ran, broken)
+			}
+		}
+	})
+}
+
+func init() {
+	// a preview in a tree where a target has a stale dependency AND its own up-to-date check fails (the directory of its
+	// output has become a regular file): the real build fails that target before attempting it and attempts nothing
+	// downstream; the preview must say the same
+	engScenarios = append(engScenarios, func(r *engRun) {
+		s := r.mkSource("")
+		g := r.mkTarget("", nil, []int{s}, 1, false, 0)
+		g.Gens = []int{r.p.newPath("gendir/sub/g.out0")}
+		top := r.mkTarget("", []int{g.ID}, nil, 1, false, 4)
+		r.emitProj("scenario: preview and build when a stale target's up-to-date check fails")
+		r.build(top.ID, "build", nil, "", "scenario")
+		r.editSource(s)
+		dir := filepath.Dir(filepath.Join(r.root, r.p.Paths[g.Gens[0]]))
+		saved := dir + ".saved"
+		if err := os.Rename(dir, saved); err != nil {
+			return
+		}
+		os.WriteFile(dir, []byte("not a directory\n"), 0644)
+		lbl := r.p.label(top.ID)
+		drep, _, dh := r.child("dry", lbl, nil, "")
+		_, r.execPos = readLines(filepath.Join(r.root, ".exec.log"), 0)
+		rrep, _, rh := r.child("build", lbl, nil, "")
+		ranLines, _ := readLines(filepath.Join(r.root, ".exec.log"), r.execPos)
+		os.Remove(dir)
+		os.Rename(saved, dir)
+		if dh || rh || drep == nil || rrep == nil || drep.LoadErr != "" || rrep.LoadErr != "" {
+			r.oracle("C13 preview / build with a failing up-to-date check: no report")
+			return
+		}
+		if drep.HashBefore != drep.HashAfter {
+			r.oracle("C13 dry run of %s changed the tree (files or persisted state) although it only failed to check a target", lbl)
+		}
+		dparts, rparts := splitRuns(drep), splitRuns(rrep)
+		want, got := evaluatingOf(rparts[len(rparts)-1]), evaluatingOf(dparts[len(dparts)-1])
+		if want != got || (drep.RunErr == "") != (rrep.RunErr == "") {
+			r.oracle("C13 dry run of %s predicted [%s] (error: %v) but the real build of the same tree attempted [%s] (error: %v): %s has a stale dependency and its own up-to-date check fails",
+				lbl, got, drep.RunErr != "", want, rrep.RunErr != "", r.p.label(g.ID))
+		}
+		// to the model the real build is one cut short after the source was recorded: nothing ran, nothing was marked
+		var ran []int
+		for _, l := range ranLines {
+			ran = append(ran, r.labelIDAny(l))
+		}
+		recs, _ := r.records()
+		r.h.Ops = append(r.h.Ops, mOp{Op: "build", Label: top.ID, Mode: "build", Note: "the up-to-date check of a target fails",
+			Obs: &mObs{Kind: "crash", Ran: ran, Recorded: []int{s}, Recs: recs, Events: map[string][]string{}}})
+		o := r.build(top.ID, "build", nil, "", "the directory is back")
+		if o.Kind == "build" && o.OK {
+			r.checkClean(top.ID)
+		}
+	})
+}
